@@ -7,6 +7,7 @@
    `multiplicity` objects, and `u_last u + notify_time <= now truncated to the second`;
    the data of a subscription is LdmFilter.query (property C13). *)
 From FlexVerif Require Import Base.Prelude Model.LdmFilter Model.LdmSub Proofs.LdmSubProofs.
+From FlexVerif Require Import Model.LdmSubReact Proofs.LdmSubReactProofs.
 
 (* each attendance invokes exactly the callbacks of the due subscriptions, once each, in subscription
    order, with exactly the C13 query result; an operation that does not attend invokes none *)
@@ -125,6 +126,60 @@ Theorem C14_single_invalid_field_code : forall s r,
 Proof. exact single_invalid_field_code. Qed.
 Print Assumptions C14_single_invalid_field_code.
 
+(* ---- consumers that ACT on their notifications (seed C14-11; Model/LdmSubReact.v) --------------------------------
+   From inside its callback a consumer may call back into the LDM: add data (on the reactive service that addition
+   attends the subscriptions again, nested in the attendance under way), attend, subscribe, unsubscribe, (de)register.
+   `history fuel tbl t0 ops` = the events (callback invocations ECall u positions second, begin / end of operations)
+   of the history `ops` from an empty LDM at t0, where tbl gives, for subscribe operations of the history, what their
+   consumer does from inside the 1st, 2nd, ... invocation of its callback; `mstep` is one small step of that machine
+   (an operation that does not attend, or one subscription of an attendance), `mcfg n` the configuration after n small
+   steps. fuel and n are arbitrary: every prefix of every such history. *)
+
+(* cadence: between two consecutive notifications of a subscription at least its notification interval passes (at
+   one-second resolution) - whatever the notified consumers do from inside their callbacks, nested attendances included *)
+Theorem C14_reentrant_cadence : forall fuel tbl t0 ops l1 u1 d1 t1 l2 u2 d2 t2 l3 n,
+  history fuel tbl t0 ops = l1 ++ ECall u1 d1 t1 :: l2 ++ ECall u2 d2 t2 :: l3 ->
+  u_cb u1 = u_cb u2 -> (forall e, In e l2 -> ~ is_call_of (u_cb u2) e) ->
+  u_nt u2 = Some n -> 0 < n -> t1 + n <= t2.
+Proof. exact reentrant_cadence. Qed.
+Print Assumptions C14_reentrant_cadence.
+
+(* the reason: the notification is recorded before the callback runs - in the state in which the consumer's reaction
+   is executed every subscription with that callback already carries the second of this very notification *)
+Theorem C14_stamped_when_delivered : forall tbl c c' evs u d t,
+  mstep tbl c = Some (c', evs) -> In (ECall u d t) evs ->
+  t = trunc_s (now (c_st c)) /\ now (c_st c') = now (c_st c) /\
+  forall v, In v (subs (c_st c')) -> u_cb v = u_cb u -> u_last v = t.
+Proof. exact stamped_when_delivered. Qed.
+Print Assumptions C14_stamped_when_delivered.
+
+(* with consumers that only record, the machine is LdmSub.run: same final state, same callback invocations in the same
+   order - so the theorems above about `step` are theorems about the machine *)
+Theorem C14_passive_consumers_are_step : forall t0 ops,
+  exists n c' evs,
+    msteps n [] (start t0 ops) = Some (c', evs) /\
+    c_st c' = state_after t0 ops /\ c_stack c' = [FOps true (Z.of_nat (length ops)) []] /\
+    calls_in evs = all_calls (init t0) ops.
+Proof. exact passive_is_run. Qed.
+Print Assumptions C14_passive_consumers_are_step.
+
+(* Known finding KF-C14-2. "After its cancellation the callback of a subscription is not invoked again." A small step
+   cancels u when u is in the subscription list before it and no subscription with its callback is in the list after
+   it. The clause holds for every cancellation after which no attendance under way still has the subscription ahead of
+   it (_partial: every unsubscription / deregistration that is an operation of the history proper, and those made from
+   a callback about subscriptions the attendance has already passed); the full clause is false (_refuted): the
+   attendance walks a copy of the list, and a subscription without notification interval that a consumer notified
+   earlier in the same attendance has just unsubscribed is still invoked. The harness replays the witness on the code. *)
+Definition C14_no_callback_after_cancellation_full : Prop := no_call_after_cancel_stmt true.
+
+Theorem C14_no_callback_after_cancellation_partial : no_call_after_cancel_stmt false.
+Proof. exact no_call_after_cancel_partial. Qed.
+Print Assumptions C14_no_callback_after_cancellation_partial.
+
+Theorem C14_no_callback_after_cancellation_refuted : ~ C14_no_callback_after_cancellation_full.
+Proof. exact no_call_after_cancel_refuted. Qed.
+Print Assumptions C14_no_callback_after_cancellation_refuted.
+
 (* Non-vacuity: two consumers, overlapping subscriptions, interval 1000 ms at second resolution,
    unsubscription, deregistration and re-registration. *)
 Definition ex_rec (sid : Z) : jv :=
@@ -140,3 +195,15 @@ Example C14_example :
   = [[]; []; []; []; []; [(1, [0])]; []; [(0, [0]); (1, [0])]; []; [(1, [0])]; []; []; []; []] /\
   validate (state_after 0 [RegCons 2 [2]]) (mkSreq 2 0 [2] (Some 256) true [] true FNone (Some (-1)) None) = 3.
 Proof. vm_compute. split; reflexivity. Qed.
+
+(* Non-vacuity of the statements about acting consumers: consumer 2 (interval 3000 ms) adds an object from inside each
+   of its notifications; the nested attendance notifies consumer 16 (no interval) but not consumer 2 again; consumer 2
+   is notified at 3000 and 6000, not at 4000. *)
+Example C14_reentrant_example :
+  flat_map flat_ev (filter (fun e => match e with ECall _ _ _ => true | _ => false end)
+    (history 200 [(2, [Some (ROp (AddObj 2 (ex_rec 8))); Some (ROp (AddObj 2 (ex_rec 9)))])] 0
+       [RegCons 2 [2]; RegCons 16 [16]; Subscribe (ex_sub 2 0 (Some 3000)); Subscribe (ex_sub 16 1 None);
+        Advance 3000; AddObj 2 (ex_rec 7); Advance 1000; Attend; Advance 2000; Attend]))
+  = [10; 0; 1; 0;   10; 1; 2; 0; 1;   10; 1; 2; 0; 1;   10; 1; 2; 0; 1;
+     10; 0; 2; 0; 1;   10; 1; 3; 0; 1; 2;   10; 1; 3; 0; 1; 2].
+Proof. vm_compute. reflexivity. Qed.
